@@ -381,7 +381,7 @@ def family(stream, v):
     imp = v.replay.get("impl") or ()
     if len(imp) > 2 and imp[0] == "other":
         text = v.replay.get("text", "")
-        return imp[1], ("import" if "import " in text else "topic" if "@topic" in text else "expression")
+        return imp[1], ("topic" if "@topic" in text else "import" if "import " in text and imp[1] != "KeyError" else "expression")
     fam = stream.split(":")
     return (":".join(fam[:2]).split(".")[0] if fam[0] == "mutant" else fam[0]), v.replay.get("oracle", "model")
 
